@@ -828,3 +828,45 @@ func c01ExtremeElements(c *core.Ctx) {
 		}
 	}
 }
+
+// c01EntropyFaultOnFirstUse: the entropy source fails during the very FIRST evaluation of a fresh issuer (and during
+// the first request creation / finalization of a fresh client); whatever that call returns, once the source works
+// again the same objects serve honest runs. One-time initialisation that failed must not have been recorded as done.
+func c01EntropyFaultOnFirstUse(c *core.Ctx, k1, k5 *oprf.PrivateKey, rk *rsa.PrivateKey) {
+	for ai := 0; ai < 4; ai++ {
+		for _, okBytes := range []int{0, 7, 40} {
+			if !c.Next() {
+				continue
+			}
+			r := c.CaseRng()
+			a := c01Adapters(r, k1, k5, rk)[ai]
+			chal, nonces := r.Bytes(10), [][]byte{r.Bytes(32)}
+			pan, pv, where := core.Guard(func() {
+				// a request made while entropy works, evaluated while it does not
+				req, _, err := a.create(clone(chal), nonces, clone(a.kid), r, false, false)
+				if err != nil {
+					return
+				}
+				rx := clone(req())
+				withFailingEntropy(okBytes, func() { a.evaluate(rx, true) })
+			})
+			// and a client whose first creation happens without entropy
+			pan2, _, _ := core.Guard(func() {
+				withFailingEntropy(okBytes, func() { a.create(clone(chal), nonces, clone(a.kid), r, false, false) })
+			})
+			pan = pan || pan2
+			if pan {
+				// circl's group arithmetic panics when the reader it is given fails (type 1 and type 5 evaluation); the
+				// statement says nothing about a run without entropy, so the faulted call itself is not judged: only
+				// what the same objects do afterwards
+				_, _ = pv, where
+				c.Class("faulted_call_panicked_not_judged")
+			}
+			before := c.ViolationCount()
+			c01RunSession(c, a, r, 5, fmt.Sprintf("after-entropy-fault-%d", okBytes))
+			if c.ViolationCount() == before {
+				c.Class("issuer_serves_after_entropy_fault_on_first_use")
+			}
+		}
+	}
+}
